@@ -41,6 +41,9 @@ runs = {
  'fast_SIR': lambda fd: EoN.fast_SIR(G, 1.0, 1.0, initial_infecteds=['n0', 'n3'], return_full_data=fd),
  'fast_SIR_weighted': lambda fd: EoN.fast_SIR(G, 1.0, 1.0, initial_infecteds=['n0'], transmission_weight='w', recovery_weight='r', return_full_data=fd),
  'fast_nonMarkov_SIR': lambda fd: EoN.fast_nonMarkov_SIR(G, trans_time_fxn=tt, rec_time_fxn=rt, trans_time_args=(1.0,), rec_time_args=(1.0,), initial_infecteds=['n1'], return_full_data=fd),
+ 'fast_SIR_with_initial_recovereds': lambda fd: EoN.fast_SIR(G, 1.0, 1.0, initial_infecteds=['n0', 'n3', 'n2'], initial_recovereds=['n5'], return_full_data=fd),
+ 'fast_nonMarkov_SIR_with_initial_recovereds': lambda fd: EoN.fast_nonMarkov_SIR(G, trans_time_fxn=tt, rec_time_fxn=rt, trans_time_args=(1.0,), rec_time_args=(1.0,), initial_infecteds=['n1', 'n4', 'n0'], initial_recovereds=[], return_full_data=fd),
+ 'Gillespie_SIR_with_initial_recovereds': lambda fd: EoN.Gillespie_SIR(G, 1.0, 1.0, initial_infecteds=['n0', 'n3', 'n2'], initial_recovereds=['n5'], return_full_data=fd),
  'fast_SIS': lambda fd: EoN.fast_SIS(G, 1.0, 1.0, initial_infecteds=['n0', 'n3'], tmax=3, return_full_data=fd),
  'fast_nonMarkov_SIS': lambda fd: EoN.fast_nonMarkov_SIS(G, trans_time_fxn=tts, rec_time_fxn=rt, trans_time_args=(1.0,), rec_time_args=(1.0,), initial_infecteds=['n1'], tmax=3, return_full_data=fd),
  'Gillespie_SIR': lambda fd: EoN.Gillespie_SIR(G, 1.0, 1.0, initial_infecteds=['n0', 'n3'], return_full_data=fd),
